@@ -20,6 +20,7 @@ package results
 import (
 	"bufio"
 	"fmt"
+	"math"
 	"os"
 	"sort"
 )
@@ -90,6 +91,9 @@ func readFileLines(filename string, startLine, endLine int) (string, error) {
 	defer f.Close()
 
 	scanner := bufio.NewScanner(f)
+	// License files can contain lines longer than the scanner's default
+	// token limit (bufio.MaxScanTokenSize); raise it so such files can be read.
+	scanner.Buffer(make([]byte, 0, bufio.MaxScanTokenSize), math.MaxInt32)
 	lines := ""
 	i := 0
 	for scanner.Scan() {
